@@ -302,6 +302,7 @@ pub fn run(ctx: &Ctx, r: &mut Report) {
 			}
 		};
 		r.eval(h.n);
+		r.case(&[19, *id, ctx.seed, small as u64]);
 		let cfg = LAST_CFG.with(|c| c.borrow_mut().take());
 		table.insert(id.to_string(), json!([format!("{:x}", h.h), h.n, status, descr, cfg]));
 		let kind = descr.split('#').next().unwrap_or("").to_string();
